@@ -338,13 +338,15 @@ def generate(rng, tier):
         if (snd, rcv) != ("full", "full"):
             kind = f"keep:{rcv}/{snd}," + kind
         out.append(_case(authic, dg, svc, kind, keep=rcv))
+        if rng.random() < 0.4:
+            out[-1]["rxvid"] = rng.randrange(3)        # the receiver has a signer id of its own
     return out
 
 
 # --------------------------------------------------------------------------- implementation / oracle
 
 def run_impl(case):
-    m = mc.new_receiver(case["authic"], case.get("keep", "full"))
+    m = mc.new_receiver(case["authic"], case.get("keep", "full"), **({"vid": case["rxvid"]} if "rxvid" in case else {}))
     excs = mc.run_rx_ops(m, case["ops"])
     obs = mc.observe_rx(m)
     obs["excs"] = excs
